@@ -56,12 +56,29 @@ def run(cx):
               bool(bs) and all(c.dominates(ok_t, b) for b in bs) and not (set(bs) & reachable_from(c, err_t)),
               "%s file-system operations is not dominated by the success continuation of "
               "get_artifact_path_and_content: a compile with diagnostics can reach the writer" % what, c.loc())
+    # ---- R17.no-failure-after-write: once the applier succeeded compile() cannot report failure -------------
+    apc = [t for t in c.calls() if term_calls(t, r"write_artifacts::apply_file_system_operations$")]
+    if len(apc) != 1:
+        raise AnchorError("compile: expected one applier call")
+    a_ok, a_err = result_branch(c, apc[0])
+    after = reachable_from(c, a_ok) - reachable_from(c, a_err)
+    errs = [b for b in after if blk_calls(c.blocks[b], r"Postfix::wrap_err$|FromResidual") or any(
+        s.rv == "aggregate" and s.j.get("variant") == "Err" for s in c.blocks[b].stmts)]
+    cx.ob("R17.no-failure-after-write", c.id + "|no-Err-after-successful-apply", not errs,
+          "compile() can still return an error after the artifacts have been written: a compile reported as failed "
+          "has changed the artifact directory", c.loc(c.blocks[errs[0]].term.line if errs else None))
+
     g = fb.one(r"artifact_content::generate_artifacts::get_artifact_path_and_content$")
     val = [t for t in g.calls() if term_calls(t, r"validate_entire_schema$")]
     impl = blocks_calling(g, r"get_artifact_path_and_content_impl$")
     if len(val) != 1 or not impl:
         raise AnchorError("get_artifact_path_and_content: validate_entire_schema / impl calls not found")
-    ok_t, err_t = result_branch(g, val[0])
+    try:
+        ok_t, err_t = result_branch(g, val[0])
+    except AnchorError:
+        if any(not o.ok for o in cx.obs):
+            return  # the gate cannot be recognised and a violation has already been established above
+        raise
     cx.ob("R17.validate-first", g.id + "|generation-after-successful-validation",
           all(g.dominates(ok_t, b) for b in impl) and not (set(impl) & reachable_from(g, err_t)),
           "artifacts are generated although validate_entire_schema reported errors", g.loc())
@@ -72,6 +89,9 @@ def run(cx):
     oks = [x for x in oks if x.bb not in reachable_from(g, ok_t)]
     cx.ob("R17.validate-first", g.id + "|errors-propagate", not oks,
           "validation errors are converted into a successful result", g.loc())
+    # watch mode: a batch of file events that could only be applied partly must not be compiled (and written)
+    from props.c20 import watch_rule
+    watch_rule(cx, cx.mir("isograph_compiler", "isograph_schema"), "R17.watch-partial-update")
     # impl is only called from the gate
     for t in fb.calls_to(r"get_artifact_path_and_content_impl$"):
         if non_test(t.fn):
